@@ -468,8 +468,19 @@ func (w *c19World) step(act c19Action, faultAt int, faultErr error) {
 		if faulted || rep.panicked || w.dead {
 			return
 		}
-		if rep.code != want {
-			w.fail(fmt.Sprintf("S5/status/%s/got%d-want%d", act.kind, rep.code, want), fmt.Sprintf("%s answered %d, the reference model predicts %d", desc, rep.code, want), map[string]any{"body": string(trunc(rep.body, 1500))})
+		// the model predicts the outcome (served / redirected / refused), not the particular status code: 404 instead of
+		// 500 for something that is not there, or 200 instead of 204, is the same outcome
+		class := func(code int) string {
+			switch {
+			case code >= 200 && code < 300:
+				return "served"
+			case code >= 300 && code < 400:
+				return "redirected"
+			}
+			return "refused"
+		}
+		if class(rep.code) != class(want) {
+			w.fail(fmt.Sprintf("S5/status/%s/got-%s-want-%s", act.kind, class(rep.code), class(want)), fmt.Sprintf("%s answered %d (%s), the reference model predicts %s", desc, rep.code, class(rep.code), class(want)), map[string]any{"body": string(trunc(rep.body, 1500))})
 		}
 	}
 	switch act.kind {
